@@ -62,10 +62,40 @@ class DType:
 class Arr:
     ndim: int
     kind: str = "i"
+    prov: tuple | None = None  # optional provenance: one label per axis (which axis of which operand it is), carried through the transfer functions
 
     @property
     def dtype(self) -> DType:
         return DType(self.kind)
+
+    @property
+    def shape(self) -> tuple:
+        return (3,) * self.ndim
+
+    def labels(self) -> tuple:
+        return self.prov if self.prov is not None else (None,) * self.ndim
+
+    def transpose(self, *axes):
+        if len(axes) == 1 and isinstance(axes[0], (list, tuple, range)):
+            axes = tuple(axes[0])
+        if not axes:
+            axes = tuple(reversed(range(self.ndim)))
+        axes = [int(a) % self.ndim for a in axes]
+        if sorted(axes) != list(range(self.ndim)):
+            raise Raised("ValueError")
+        lab = self.labels()
+        return Arr(self.ndim, self.kind, tuple(lab[a] for a in axes))
+
+    def copy(self):
+        return self
+
+    @property
+    def T(self):
+        return self.transpose()
+
+
+class Scalar:
+    """a numpy scalar (what indexing away every axis returns)"""
 
 
 @dataclass(frozen=True)
@@ -112,6 +142,8 @@ def _depth(x) -> int:
 def as_array(x) -> Arr:
     if isinstance(x, Arr):
         return x
+    if isinstance(x, Scalar):
+        return Arr(0, "f")
     if isinstance(x, bool):
         return Arr(0, "b")
     if isinstance(x, int):
@@ -126,6 +158,35 @@ def as_array(x) -> Arr:
     if x is None or isinstance(x, slice) or x is Ellipsis:
         return Arr(0, "O")  # numpy wraps any other object into a 0-d object array
     raise Unsupported(f"np.asarray of {type(x).__name__}")
+
+
+def index_array(a: Arr, key):
+    """a[key] for an abstract array: numpy's indexing rules at the level of kinds (geolint/indexspec.py)"""
+    from geolint import indexspec
+
+    els = key if isinstance(key, tuple) else (key,)
+    kinds = []
+    for el in els:
+        if el is None:
+            kinds.append("none")
+        elif el is Ellipsis:
+            kinds.append("ellipsis")
+        elif isinstance(el, slice):
+            kinds.append("slice")
+        elif isinstance(el, bool):
+            raise Unsupported("boolean scalar index")
+        elif isinstance(el, int):
+            kinds.append("int")
+        else:
+            arr = as_array(el)
+            kinds.append(("barr" if arr.kind == "b" else "iarr", max(arr.ndim, 1)) if arr.ndim else "int")
+    res = indexspec.result_axes(tuple(kinds), a.ndim)
+    if res == "invalid":
+        raise Raised("IndexError")
+    if not res:
+        return Scalar()
+    lab = a.labels()
+    return Arr(len(res), a.kind, tuple("new" if r is None else lab[r] for r in res))
 
 
 class NP:
@@ -157,6 +218,8 @@ class NP:
     def issubdtype(dt, base):
         if not isinstance(dt, DType):
             raise Unsupported("issubdtype of a non-dtype")
+        if isinstance(base, Sym) and base.name == "np.number":
+            return dt.kind in "if"
         return {NP_INTEGER: dt.kind == "i", NP_FLOATING: dt.kind == "f", NP_BOOL: dt.kind == "b"}.get(base, False)
 
     @staticmethod
@@ -173,7 +236,43 @@ class NP:
 
     @staticmethod
     def isscalar(x):
-        return isinstance(x, (int, float)) and not isinstance(x, bool)
+        return isinstance(x, (int, float, Scalar)) and not isinstance(x, bool)
+
+    number = Sym("np.number")
+    generic = Sym("np.generic")
+
+    @staticmethod
+    def dtype(x):
+        return x
+
+    @staticmethod
+    def transpose(x, axes=None):
+        x = as_array(x)
+        return x.transpose(*([axes] if axes is not None else []))
+
+    @staticmethod
+    def tensordot(a, b, axes=2):
+        a, b = as_array(a), as_array(b)
+        if axes != 0:
+            raise Unsupported("tensordot with contracted axes")
+        return Arr(a.ndim + b.ndim, a.kind, a.labels() + b.labels())
+
+    @staticmethod
+    def expand_dims(x, axis):
+        x = as_array(x)
+        if isinstance(axis, (list, tuple)):
+            raise Unsupported("expand_dims with several axes")
+        axis = axis % (x.ndim + 1)
+        lab = list(x.labels())
+        lab.insert(axis, "new")
+        return Arr(x.ndim + 1, x.kind, tuple(lab))
+
+    @staticmethod
+    def swapaxes(x, a, b):
+        x = as_array(x)
+        perm = list(range(x.ndim))
+        perm[a], perm[b] = perm[b], perm[a]
+        return x.transpose(perm)
 
 
 class _Math:
@@ -189,6 +288,8 @@ def _isinstance(v, t) -> bool:
         return isinstance(v, int) and not isinstance(v, bool) or isinstance(v, float) and t is NUMBER
     if t is NDARRAY:
         return isinstance(v, Arr)
+    if isinstance(t, Sym) and t.name == "np.generic":
+        return isinstance(v, Scalar)
     if t is NP_INTEGER:
         return False
     if isinstance(t, type):
@@ -232,8 +333,6 @@ class Interp:
         if depth > self.max_depth:
             raise Unsupported("call depth")
         a = fn.node.args
-        if a.kwarg:
-            raise Unsupported(f"signature of {fn.name}")
         names = [p.arg for p in a.posonlyargs + a.args]
         env: dict = {}
         kwargs = dict(kwargs or {})
@@ -258,6 +357,9 @@ class Interp:
                 env[nm] = self.expr(defaults[nm], {}, fn, depth)
             else:
                 raise Unsupported(f"missing argument {nm} of {fn.name}")
+        if a.kwarg is not None:
+            env[a.kwarg.arg] = dict(kwargs)
+            kwargs = {}
         if len(args) > len(names) or kwargs:
             raise Unsupported(f"arguments of {fn.name}")
         try:
@@ -549,7 +651,7 @@ class Interp:
                 except TypeError:
                     raise Raised("TypeError")
             if isinstance(obj, Arr):
-                raise Unsupported("indexing an abstract array")
+                return index_array(obj, key)
             raise Unsupported(f"subscript of {type(obj).__name__}")
         if isinstance(e, ast.Slice):
             return slice(self.expr(e.lower, env, fn, depth) if e.lower else None, self.expr(e.upper, env, fn, depth) if e.upper else None,
@@ -617,8 +719,12 @@ class Interp:
                 else:
                     args.append(self.expr(a, env, fn, depth))
             kwargs = {k.arg: self.expr(k.value, env, fn, depth) for k in e.keywords if k.arg is not None}
-            if any(k.arg is None for k in e.keywords):
-                raise Unsupported("** in a call")
+            for k in e.keywords:
+                if k.arg is None:
+                    extra = self.expr(k.value, env, fn, depth)
+                    if not isinstance(extra, dict):
+                        raise Unsupported("** of a non-dict")
+                    kwargs.update(extra)
             if isinstance(f, FunctionInfo):
                 return self.call(f, args, kwargs, depth + 1)
             from geolint.model import ClassInfo as _CI
